@@ -32,13 +32,19 @@ def queries(flavour, n, used):
     return out
 
 
-def scenarios(flavour, n, max_edges, shape, with_queries, pb=2):
+def scenarios(flavour, n, max_edges, shape, with_queries, pb=2, removals_only=False, min_edges=0):
     """shape: tuple of calls per thread, e.g. (1, 1), (2, 1), (1, 1, 1)"""
     for seq in canon_sequences(n, max_edges):
+        if len(seq) < min_edges:
+            continue
         used = used_nodes(seq)
         pre = [['connect', u, v, {'s': f'e{j}'}] for j, (u, v) in enumerate(seq)]
         nodes = [[i, 100 + i] for i in range(n)]
         muts = calls(flavour, n, used)
+        if removals_only:
+            # removals of existing edges only: two threads taking different entries out of the same lists
+            present = {tuple(p) for p in seq} | ({(v, u) for u, v in seq} if 'ungraph' in flavour else set())
+            muts = [c for c in muts if (c[0] == 'disconnect' and (c[1], c[2]) in present) or c[0] == 'isolate']
         pool = muts + (queries(flavour, n, used) if with_queries else [])
         per_thread = [list(itertools.product(range(len(pool)), repeat=k)) for k in shape]
         seen = set()
@@ -202,6 +208,7 @@ def items_for(tier):
         if tier == 'quick':
             items += list(scenarios(fl, 2, 1, (1, 1), True))
             items += list(scenarios(fl, 3, 1, (1, 1), False))
+            items += list(scenarios(fl, 3, 2, (1, 1), False, removals_only=True, min_edges=2))
         else:
             items += list(scenarios(fl, 3, 2, (1, 1), True))
             items += list(scenarios(fl, 2, 1, (2, 1), False))
@@ -304,7 +311,7 @@ def run(prop, tier, seed):
     random.Random(seed).shuffle(items)
     rep.extra['sample_fallback'] = items[0][1]
     rep.bounds = {'threads x calls': '2 x 1' if tier == 'quick' else '2 x 1 (3 nodes, <=2 initial edges), 2+1 calls, 3 x 1',
-                  'nodes': '2 (with queries) and 3', 'initial_edges': 1 if tier == 'quick' else 2,
+                  'nodes': '2 (with queries) and 3', 'initial_edges': '<=1, and 2 for pairs of removals (disconnect of an existing edge / isolate)' if tier == 'quick' else 2,
                   'calls': 'connect, try_connect, disconnect, isolate (+ degree queries and a bfs as the other thread\'s call)',
                   'preemption_bound': 2, 'schedule_points': 'immediately before every RwLock::read / RwLock::write of a node',
                   'symbolic': 'edge values',
